@@ -772,6 +772,9 @@ def _c13_run(scn, table):
         parse_kw[s] = _c13_concrete(s, val("parse_kw"))
     old = (MasterConfig.default_ns, MasterConfig.default_ew)
     try:
+        if target == "tract" and s in ("default_ns", "default_ew"):
+            # (the same components have been used before, under the MasterConfig defaults then in force)
+            pytrs.Tract.from_twprgesec("NE/4", 154, 97, 14)
         if val("mc") is not None:
             setattr(MasterConfig, s, val("mc"))
         if target == "plss":
@@ -790,6 +793,10 @@ def _c13_run(scn, table):
             proj = (d.current_layout, d.pp_desc,
                     tuple((t.trs, t.desc, tuple(t.lots), tuple(t.qqs), t.parse_complete) for t in d.tracts),
                     tuple(sorted(map(repr, d.w_flags))), tuple(sorted(map(repr, d.e_flags))))
+        elif s in ("default_ns", "default_ew"):
+            # a Tract reads the default directions when it is built from components that lack them
+            t = pytrs.Tract.from_twprgesec("NE/4", 154, 97, 14, config=cfgtext_ch("init_config"), **init_kw)
+            proj = (t.trs, t.twp, t.rge)
         else:
             text = C13_TRACT_TEXTS[s]
             t = pytrs.Tract(text, "154n97w14", config=cfgtext_ch("init_config"), **init_kw)
@@ -923,6 +930,8 @@ def c14(case):
                     k = {}
                     if kw["clean"] != "-":
                         k["clean_qq"] = _b(kw["clean"])
+                    if op["cfg"].get("lay", "-") == "bh":
+                        k["config"] = "break_halves"
                     obj.parse_tracts(**k)
                 elif name == "preprocess":
                     k = {}
